@@ -528,6 +528,9 @@ func (h *helperVisitor) sortArgs(Args map[string]Expression) []Node {
 		for _, arg := range Args {
 			args = append(args, arg)
 		}
+		sort.Slice(args, func(i, j int) bool {
+			return args[i].GetRange().Start.IsBefore(args[j].GetRange().Start)
+		})
 		return args
 	}
 	return nil
